@@ -52,3 +52,10 @@ Theorem C08_source_poly_bool : forall n nm data, (nm * n <= length data)%nat ->
   GenLoop.gen_poly_bool_u16 (Z.of_nat n) (Z.of_nat nm) data = any /\ GenLoop.gen_poly_bool_u32 (Z.of_nat n) (Z.of_nat nm) data = any /\ GenLoop.gen_poly_bool_u64 (Z.of_nat n) (Z.of_nat nm) data = any.
 Proof. exact PolyBoolSpec.source_poly_bool. Qed.
 Print Assumptions C08_source_poly_bool.
+
+(* non-vacuity: the translated conversion RUNS: zero polynomial false, one non-zero word true, and the non-zero polynomial whose words sum to
+   0 modulo 2^16 (15360 * 4 + 4096 = 65536) true *)
+Example C08_source_nonvacuous :
+  GenLoop.gen_poly_bool_u16 4 2 (0 :: 0 :: 0 :: 0 :: 0 :: 0 :: 0 :: 0 :: nil) = Some false /\ GenLoop.gen_poly_bool_u16 4 2 (0 :: 0 :: 0 :: 0 :: 0 :: 0 :: 5 :: 0 :: nil) = Some true /\
+  GenLoop.gen_poly_bool_u16 4 2 (15360 :: 15360 :: 4096 :: 15360 :: 15360 :: 0 :: 0 :: 0 :: nil) = Some true.
+Proof. vm_compute. repeat split. Qed.
